@@ -6,14 +6,14 @@
 /// Check for `assertion`: ""float draw satisfies start <= x < end""
 
 #[test]
-fn kani_concrete_playback_c14_f64_range_2518739152198429720() {
+fn kani_concrete_playback_c14_f64_range_2423067143717988821() {
     let concrete_vals: Vec<Vec<u8>> = vec![
-        // 6.567259e-288
-        vec![255, 255, 255, 255, 255, 255, 79, 4],
-        // 6.567259e-288
-        vec![0, 0, 0, 0, 0, 0, 80, 4],
-        // 18446744073709551615ul
-        vec![255, 255, 255, 255, 255, 255, 255, 255],
+        // 3.061802e+203
+        vec![0, 0, 0, 0, 0, 64, 47, 106],
+        // 3.083235e+203
+        vec![0, 0, 0, 0, 0, 120, 47, 106],
+        // 18446744073709428735ul
+        vec![255, 31, 254, 255, 255, 255, 255, 255],
     ];
     kani::concrete_playback_run(concrete_vals, c14_f64_range);
 }
